@@ -1,19 +1,36 @@
 /-
 C17 — Mappings and sets are finite maps under any consistent hash.
-Property theorems only; definitions (`Consistent`, `Inv`, `look`, `lookB`) and helper lemmas live in
-XrayProofs/HashMap.lean, the model in XrayModel/HashMap.lean.
+Property theorems only; definitions (`Consistent`, `Inv`, `look`, `has`, `writeAll`, `foldF`, `Sub`) and helper
+lemmas live in XrayProofs/HashMap.lean, the model in XrayModel/HashMap.lean.
 
-`Consistent hash eq` is the premise of the property: `eq` is a total equivalence relation (`C.e`), `hash` is
-total (`C.h`), equal keys hash equally and hashes lie in `[0, 2^64)`.
-`look C t k` is plain association-list lookup, over the classes of `C.e`, in the list of all stored entries —
-no hashing involved.  `Inv C t` is the representation invariant (every key sits in the bucket of its hash, no
-two equivalent keys are stored, no bucket is empty, no hash occurs twice, `len` = number of stored entries).
+* `Consistent hash eq` is the premise of the property: `eq` is a total equivalence relation (`C.e`), `hash` is
+  total (`C.h`), equal keys hash equally and hashes lie in `[0, 2^64)`.  Nothing else is assumed about the
+  hash: it may be injective, collide, or be constant.
+* `look C t k` is plain association-list lookup, over the classes of `C.e`, in the list of all stored entries
+  (`toList t`) — no hashing, no buckets.  `has C t k = (look C t k).isSome`.
+* `Inv C t` is the representation invariant: every key sits in the bucket of its hash, no two equivalent keys
+  are stored, no bucket is empty, no hash occurs twice, `len` = number of stored entries.
+Every operation theorem has the shape: on a well-formed table the operation succeeds (or returns the documented
+error value — never a panic), the result is well-formed, and `look` of the result is the association-list
+specification applied to `look` of the argument.
 -/
 import XrayProofs.HashMap
 namespace XrayModel.C17
 open XrayModel.HM
 
 variable {K V : Type} {hash : K → Res Int} {eq : K → K → Res Bool}
+
+/-- the premise is satisfiable by a constant hash under an equality coarser than identity (keys mod 3) -/
+example : Consistent (K := Nat) (fun _ => .ok 0) (fun a b => .ok (a % 3 == b % 3)) where
+  h := fun _ => 0
+  e := fun a b => a % 3 == b % 3
+  hash_ok := fun _ => rfl
+  hash_lt := fun _ => by decide
+  eq_ok := fun _ _ => rfl
+  refl := fun a => by simp
+  symm := fun a b h => by simp at h ⊢; omega
+  trans := fun a b c h1 h2 => by simp at h1 h2 ⊢; omega
+  congr := fun _ _ _ => rfl
 
 /-- a hash outside `[0, 2^64)` makes `locate` (hence every keyed operation) answer the error value
 "hash is out of bounds" — never a panic, never a wrong bucket -/
@@ -28,24 +45,35 @@ theorem hash_out_of_range_is_error (hash : K → Res Int) (eq : K → K → Res 
   simp [locate, hx, this]
 
 /-- the empty mapping / set satisfies the invariant and holds nothing -/
-theorem empty_spec (C : Consistent hash eq) : Inv C (empty : Table K V) ∧ ∀ k, look C (empty : Table K V) k = none :=
-  ⟨⟨trivial, rfl⟩, fun _ => rfl⟩
+theorem empty_spec (C : Consistent hash eq) :
+    Inv C (empty : Table K V) ∧ (empty : Table K V).len = 0 ∧ ∀ k, look C (empty : Table K V) k = none :=
+  ⟨⟨trivial, rfl⟩, rfl, fun _ => rfl⟩
 
-/-- collision independence: on a well-formed table, lookup through the hash (`lookB`: bucket of `hash k`,
-then equality scan) is plain association-list lookup over all entries — for EVERY consistent hash, the
+/-- collision independence: on a well-formed table, lookup through the hash (`lookB`: the bucket of `hash k`,
+then the equality scan) is plain association-list lookup over all entries — for EVERY consistent hash, the
 constant one included -/
 theorem collision_independent (C : Consistent hash eq) {t : Table K V} (hI : Inv C t) (k : K) :
     lookB C t k = look C t k := (look_eq_lookB C hI k).symm
 
+/-- `len` counts classes: it is the number of stored entries, and the stored keys are pairwise inequivalent -/
+theorem len_spec (C : Consistent hash eq) {t : Table K V} (hI : Inv C t) :
+    t.len = (toList t).length ∧ (toList t).Pairwise (fun x y => C.e x.1 y.1 = false) :=
+  ⟨by rw [toList_length]; exact hI.len_eq, toList_pairwise C hI⟩
+
 /-- `lookup` returns what the association list returns -/
 theorem lookup_spec (C : Consistent hash eq) {t : Table K V} (hI : Inv C t) (k : K) :
     lookup hash eq t k = .ok (look C t k) := by
-  rw [look_eq_lookB C hI]
-  exact lookup_eq C hI k
+  rw [look_eq_lookB C hI]; exact lookup_eq C hI k
 
-/-- `set` (insertion and overwrite): succeeds, keeps the invariant, and afterwards every key equivalent to
-`k` maps to `v` while every other key maps to what it mapped to before; `len` grows by one exactly when `k`'s
-class was absent -/
+/-- `get(m, k, default)`: the stored value, else the (lazily evaluated) default -/
+theorem get_default_spec (C : Consistent hash eq) {t : Table K V} (hI : Inv C t) (k : K) (d : Unit → Res V) :
+    get3 hash eq t k d = match look C t k with
+      | some v => .ok v
+      | none => d () := by
+  rw [look_eq_lookB C hI]; exact get3_eq C hI k d
+
+/-- `set` (insertion and overwrite): succeeds, keeps the invariant; afterwards every key equivalent to `k` maps
+to `v` and every other key maps to what it mapped to before; `len` grows by one exactly when `k`'s class was absent -/
 theorem set_spec (C : Consistent hash eq) {t : Table K V} (hI : Inv C t) (k : K) (v : V) :
     ∃ t', set hash eq t k v = .ok t' ∧ Inv C t' ∧
       (∀ k', look C t' k' = if C.e k' k then some v else look C t k') ∧
@@ -54,5 +82,184 @@ theorem set_spec (C : Consistent hash eq) {t : Table K V} (hI : Inv C t) (k : K)
   refine ⟨t', h1, h2, ?_, ?_⟩
   · intro k'; rw [look_eq_lookB C h2, look_eq_lookB C hI]; exact h4 k'
   · rw [look_eq_lookB C hI]; exact h3
+
+/-- lookup after set: any key equivalent to the one just set yields the value just set -/
+theorem lookup_after_set (C : Consistent hash eq) {t : Table K V} (hI : Inv C t) (k k' : K) (v : V)
+    (he : C.e k' k = true) :
+    ∃ t', set hash eq t k v = .ok t' ∧ lookup hash eq t' k' = .ok (some v) := by
+  obtain ⟨t', h1, h2, h3, _⟩ := set_spec C hI k v
+  exact ⟨t', h1, by rw [lookup_spec C h2, h3, he]; rfl⟩
+
+/-- overwrite: setting an equivalent key again replaces the value and leaves `len` and all other keys alone -/
+theorem overwrite (C : Consistent hash eq) {t : Table K V} (hI : Inv C t) (k k2 : K) (v v2 : V)
+    (he : C.e k2 k = true) :
+    ∃ t1 t2, set hash eq t k v = .ok t1 ∧ set hash eq t1 k2 v2 = .ok t2 ∧ t2.len = t1.len ∧
+      ∀ k', look C t2 k' = if C.e k' k then some v2 else look C t k' := by
+  obtain ⟨t1, h1, hI1, hl1, _⟩ := set_spec C hI k v
+  obtain ⟨t2, h2, _, hl2, hn2⟩ := set_spec C hI1 k2 v2
+  refine ⟨t1, t2, h1, h2, ?_, ?_⟩
+  · rw [hn2, hl1, he]; rfl
+  · intro k'
+    rw [hl2, hl1, e_left_congr C he k']
+    cases C.e k' k <;> rfl
+
+/-- `set_default`: a present class leaves the mapping untouched and does not even evaluate the value; an
+absent class is inserted (an erroring value is the result) -/
+theorem set_default (C : Consistent hash eq) {t : Table K V} (hI : Inv C t) (k : K) (v : Unit → Res V) :
+    match look C t k with
+    | some _ => setDefault hash eq t k v = .ok t
+    | none =>
+      match v () with
+      | .error er => setDefault hash eq t k v = .error er
+      | .ok a => ∃ t', setDefault hash eq t k v = .ok t' ∧ Inv C t' ∧ t'.len = t.len + 1 ∧
+          ∀ k', look C t' k' = if C.e k' k then some a else look C t k' := by
+  have h := setDefault_spec C hI k v
+  rw [look_eq_lookB C hI]
+  cases hl : lookB C t k with
+  | some p => simpa [hl] using h
+  | none =>
+    simp only [hl] at h ⊢
+    cases hv : v () with
+    | error er => simpa [hv] using h
+    | ok a =>
+      simp only [hv] at h ⊢
+      obtain ⟨t', h1, h2, h3, h4⟩ := h
+      exact ⟨t', h1, h2, h3, fun k' => by rw [look_eq_lookB C h2, look_eq_lookB C hI]; exact h4 k'⟩
+
+/-- `pop` (and set `remove`, with its own message): an absent class is the documented error value; a present
+class is removed — it and only it — and `len` drops by one -/
+theorem remove (C : Consistent hash eq) (msg : String) {t : Table K V} (hI : Inv C t) (k : K) :
+    match look C t k with
+    | none => popMsg hash eq msg t k = .error (.err msg)
+    | some _ => ∃ t', popMsg hash eq msg t k = .ok t' ∧ Inv C t' ∧ t'.len + 1 = t.len ∧
+        ∀ k', look C t' k' = if C.e k' k then none else look C t k' := by
+  have h := popMsg_spec C msg hI k
+  rw [look_eq_lookB C hI]
+  cases hl : lookB C t k with
+  | none => simpa [hl] using h
+  | some p =>
+    simp only [hl] at h ⊢
+    obtain ⟨t', h1, h2, h3, h4⟩ := h
+    exact ⟨t', h1, h2, h3, fun k' => by rw [look_eq_lookB C h2, look_eq_lookB C hI]; exact h4 k'⟩
+
+/-- `discard`: never an error; the class of `k` is gone afterwards, everything else is as before -/
+theorem discard_spec (C : Consistent hash eq) {t : Table K V} (hI : Inv C t) (k : K) :
+    ∃ t', discard hash eq t k = .ok t' ∧ Inv C t' ∧
+      t'.len + (if (look C t k).isSome then 1 else 0) = t.len ∧
+      ∀ k', look C t' k' = if C.e k' k then none else look C t k' := by
+  obtain ⟨t', h1, h2, h3, h4⟩ := HM.discard_spec C hI k
+  refine ⟨t', h1, h2, by rw [look_eq_lookB C hI]; exact h3, fun k' => ?_⟩
+  rw [look_eq_lookB C h2, look_eq_lookB C hI]; exact h4 k'
+
+/-- `clear` -/
+theorem clear_spec (C : Consistent hash eq) {t : Table K V} (hI : Inv C t) :
+    Inv C (clear t) ∧ (clear t).len = 0 ∧ ∀ k, look C (clear t) k = none := by
+  obtain ⟨h1, h2, h3⟩ := HM.clear_spec C hI
+  exact ⟨h1, h2, fun k => by rw [look_eq_lookB C h1]; exact h3 k⟩
+
+/-- bulk update (`update`, and `set` as its one-item case): the items are written in order, later items win -/
+theorem bulk_update (C : Consistent hash eq) {t : Table K V} (hI : Inv C t) (items : List (K × V)) :
+    ∃ t', update hash eq t (items.map .ok) = .ok t' ∧ Inv C t' ∧
+      ∀ k', look C t' k' = writeAll C (look C t) items k' := by
+  obtain ⟨t', h1, h2, h3⟩ := withUpdate_spec C hI items
+  exact ⟨t', h1, h2, fun k' => by rw [look_eq_lookB C h2, look_fun C hI]; exact h3 k'⟩
+
+/-- `update_from_keys` refines the abstract fold `foldF` of the one-key step over the association function:
+same result, same first error (an error item of the generator or an error of a callback) -/
+theorem update_from_keys_spec (C : Consistent hash eq) (onEmpty : K → Res V) (onOcc : K → V → Res V)
+    {t : Table K V} (hI : Inv C t) (ks : List (Res K)) :
+    match foldF C onEmpty onOcc (look C t) ks with
+    | .error er => updateFromKeys hash eq onEmpty onOcc t ks = .error er
+    | .ok f => ∃ t', updateFromKeys hash eq onEmpty onOcc t ks = .ok t' ∧ Inv C t' ∧ ∀ k', look C t' k' = f k' := by
+  have h := updateFromKeys_spec C onEmpty onOcc hI ks
+  rw [look_fun C hI]
+  cases hf : foldF C onEmpty onOcc (lookB C t) ks with
+  | error er => simpa [hf] using h
+  | ok f =>
+    simp only [hf] at h ⊢
+    obtain ⟨t', h1, h2, h3⟩ := h
+    exact ⟨t', h1, h2, fun k' => by rw [look_eq_lookB C h2]; exact h3 k'⟩
+
+/-- counting: `update_counter` is the fold with `1` for a new class and `+ 1` for a present one -/
+theorem counting (C : Consistent hash eq) {t : Table K Int} (hI : Inv C t) (ks : List (Res K)) :
+    match foldF C (fun _ => .ok 1) (fun _ v => .ok (v + 1)) (look C t) ks with
+    | .error er => updateCounter hash eq t ks = .error er
+    | .ok f => ∃ t', updateCounter hash eq t ks = .ok t' ∧ Inv C t' ∧ ∀ k', look C t' k' = f k' := by
+  have h := update_from_keys_spec C (fun _ => .ok (1 : Int)) (fun _ v => .ok (v + 1)) hI ks
+  unfold updateCounter
+  cases hf : foldF C (fun _ => .ok (1 : Int)) (fun _ v => .ok (v + 1)) (look C t) ks with
+  | error er => simpa [hf] using h
+  | ok f => simpa [hf] using h
+
+/-- persistence: an update returns a new table; the old version still satisfies its invariant and still
+answers every lookup exactly as before (the model is pure, so this is immediate — the tie re-reads every
+earlier version of the real implementation after later updates) -/
+theorem persistent (C : Consistent hash eq) {t : Table K V} (hI : Inv C t) (k : K) (v : V) (k' : K) :
+    ∃ t', set hash eq t k v = .ok t' ∧ Inv C t ∧ lookup hash eq t k' = .ok (look C t k') := by
+  obtain ⟨t', h1, _⟩ := set_spec C hI k v
+  exact ⟨t', h1, hI, lookup_spec C hI k'⟩
+
+/-- no operation on a well-formed table reaches a Rust panic (`unwrap` on `None`, index out of range,
+`usize` underflow, `unreachable!`) -/
+theorem no_panic (C : Consistent hash eq) {t : Table K V} (hI : Inv C t) (k : K) (v : V) (w : String) :
+    set hash eq t k v ≠ .error (.panic w) ∧ pop hash eq t k ≠ .error (.panic w) ∧
+    discard hash eq t k ≠ .error (.panic w) ∧ lookup hash eq t k ≠ .error (.panic w) ∧
+    setDefault hash eq t k (fun _ => .ok v) ≠ .error (.panic w) := by
+  refine ⟨?_, ?_, ?_, ?_, ?_⟩
+  · obtain ⟨t', h1, _⟩ := set_spec C hI k v; rw [h1]; intro h; cases h
+  · have h := remove C "key not found" hI k
+    unfold pop
+    cases hl : look C t k with
+    | none => simp only [hl] at h; rw [h]; intro h2; cases h2
+    | some p => simp only [hl] at h; obtain ⟨t', h1, _⟩ := h; rw [h1]; intro h2; cases h2
+  · obtain ⟨t', h1, _⟩ := discard_spec C hI k; rw [h1]; intro h; cases h
+  · rw [lookup_spec C hI]; intro h; cases h
+  · have h := set_default C hI k (fun _ => .ok v)
+    cases hl : look C t k with
+    | none => simp only [hl] at h; obtain ⟨t', h1, _⟩ := h; rw [h1]; intro h2; cases h2
+    | some p => simp only [hl] at h; rw [h]; intro h2; cases h2
+
+/-! ### sets -/
+
+/-- `add` / `update` on sets: the classes of the added keys join the set, nothing else changes -/
+theorem set_add_spec (C : Consistent hash eq) {t : Table K Unit} (hI : Inv C t) (ks : List K) :
+    ∃ t', sUpdate hash eq t (ks.map .ok) = .ok t' ∧ Inv C t' ∧
+      ∀ k', has C t' k' = (has C t k' || ks.any (fun k => C.e k' k)) := by
+  obtain ⟨t', h1, h2, h3⟩ := sWithUpdate_spec C hI ks
+  exact ⟨t', h1, h2, fun k' => by rw [has_eq_mem C h2, has_eq_mem C hI]; exact h3 k'⟩
+
+/-- `contains` -/
+theorem set_contains_spec (C : Consistent hash eq) {t : Table K Unit} (hI : Inv C t) (k : K) :
+    sContains hash eq t k = .ok (has C t k) := by
+  rw [has_eq_mem C hI]; exact sContains_eq C t k
+
+/-- `|`, `&`, `-`, `^` are union, intersection, difference and symmetric difference of the class sets -/
+theorem set_algebra (C : Consistent hash eq) {a b : Table K Unit} (ha : Inv C a) (hb : Inv C b) :
+    (∃ r, bitOr hash eq a b = .ok r ∧ Inv C r ∧ ∀ k, has C r k = (has C a k || has C b k)) ∧
+    (∃ r, bitAnd hash eq a b = .ok r ∧ Inv C r ∧ ∀ k, has C r k = (has C a k && has C b k)) ∧
+    (∃ r, sSub hash eq a b = .ok r ∧ Inv C r ∧ ∀ k, has C r k = (has C a k && !has C b k)) ∧
+    (∃ r, bitXor hash eq a b = .ok r ∧ Inv C r ∧ ∀ k, has C r k = (has C a k != has C b k)) := by
+  refine ⟨?_, ?_, ?_, ?_⟩
+  · obtain ⟨r, h1, h2, h3⟩ := bitOr_spec C ha hb
+    exact ⟨r, h1, h2, fun k => by rw [has_eq_mem C h2, has_eq_mem C ha, has_eq_mem C hb]; exact h3 k⟩
+  · obtain ⟨r, h1, h2, h3⟩ := bitAnd_spec C ha hb
+    exact ⟨r, h1, h2, fun k => by rw [has_eq_mem C h2, has_eq_mem C ha, has_eq_mem C hb]; exact h3 k⟩
+  · obtain ⟨r, h1, h2, h3⟩ := sSub_spec C ha hb
+    exact ⟨r, h1, h2, fun k => by rw [has_eq_mem C h2, has_eq_mem C ha, has_eq_mem C hb]; exact h3 k⟩
+  · obtain ⟨r, h1, h2, h3⟩ := bitXor_spec C ha hb
+    exact ⟨r, h1, h2, fun k => by rw [has_eq_mem C h2, has_eq_mem C ha, has_eq_mem C hb]; exact h3 k⟩
+
+/-- `<=`, `>=`, `<`, `>`, `==`, `is_disjoint` decide inclusion, proper inclusion, equality and disjointness of
+the class sets (the `len` shortcuts in the library code are justified by counting classes) -/
+theorem set_relations (C : Consistent hash eq) {a b : Table K Unit} (ha : Inv C a) (hb : Inv C b) :
+    (∃ r, sLe hash eq a b = .ok r ∧ (r = true ↔ ∀ k, has C a k = true → has C b k = true)) ∧
+    (∃ r, sLt hash eq a b = .ok r ∧ (r = true ↔ ((∀ k, has C a k = true → has C b k = true) ∧
+        ¬ ∀ k, has C b k = true → has C a k = true))) ∧
+    (∃ r, sEq hash eq a b = .ok r ∧ (r = true ↔ ∀ k, has C a k = has C b k)) ∧
+    (∃ r, isDisjoint hash eq a b = .ok r ∧ (r = true ↔ ∀ k, ¬ (has C a k = true ∧ has C b k = true))) := by
+  have e1 : ∀ k, has C a k = mem C a k := has_eq_mem C ha
+  have e2 : ∀ k, has C b k = mem C b k := has_eq_mem C hb
+  simp only [e1, e2]
+  exact ⟨sGe_spec C ha hb, sGt_spec C ha hb, sEq_spec C ha hb, isDisjoint_spec C ha hb⟩
 
 end XrayModel.C17
